@@ -158,12 +158,18 @@ pub fn check(ctx: &mut Ctx, c: &Cfg) -> Result<(), String> {
                 return Err("a required presence/verification is not reflected in the flags".into());
             }
             if out.uv_calls.len() > 1 {
-                return Err(format!("check_user was called {} times", out.uv_calls.len()));
+                // asking more than once is not forbidden by the statement; every time must show the signing credential
+                ctx.measure("check_user called more than once", 1);
             }
             if !c.create {
-                let shown = out.uv_calls.first().and_then(|c| c.credential_id.clone());
-                if shown.as_deref() != Some(id.as_slice()) {
-                    return Err(format!("the credential shown to the user ({:?}) is not the one that signed ({})", shown.map(|s| crate::core::hex(&s)), crate::core::hex(id)));
+                if out.uv_calls.is_empty() && (up || uv) {
+                    return Err("an assertion was signed without any call of the user-validation step".into());
+                }
+                for call in &out.uv_calls {
+                    let shown = call.credential_id.clone();
+                    if shown.as_deref() != Some(id.as_slice()) {
+                        return Err(format!("the credential shown to the user ({:?}) is not the one that signed ({})", shown.map(|s| crate::core::hex(&s)), crate::core::hex(id)));
+                    }
                 }
             }
         }
